@@ -20,4 +20,4 @@ def run(tier, seed):
     return v.finish()
 
 def replay(path, seed):
-    print(open(path).read()[-3000:]); return 1
+    return replay_lane(PROP, path)
